@@ -31,6 +31,8 @@ var c19Paths = []string{
 	"$[(1)]", "$.a[(@.length-1)].b", "$[?(@.* == 1)]", "$[?(@.a == 1 && @..b > 2)]", "$[?(@.a == @.b)]", "$[?($.a == 1 || @.a != @.b)]",
 	"$.a.b[0] x", "$.a['b',", "$[?(@.a[?(@.b == 1) x])]", "$[?(@.a == 1 && )]", "$.a.f1() x", "$[?(@.a.f1() == 1)] y", "$.a[0:1:2:3]", "", "@", "$[?(@.a == 'x)]",
 	"$[?(@.a.g1().g1() == 1)]", "$[?(1 < 2)]", "$[?($.a > $.b)]",
+	// backslash sequences inside string literals and regular expressions (whatever they mean, they mean it on every call)
+	`$[?(@.a == 'x\ny')]`, `$[?(@.a == "x\ty")]`, `$[?(@.a == 'x\\ny')]`, `$[?(@.a == 'x\'y')]`, `$[?(@.a =~ /x\ny/)]`, `$[?(@.a == 'x\u0041y')]`,
 }
 
 const c19Configs = 6
@@ -85,6 +87,7 @@ var c19Probes = []string{
 	`{"a":[1,2,3],"b":{"a":"x"}}`,
 	`[{"a":1,"b":2},{"a":2},{"b":{"a":[3]}}]`,
 	`{"a":{"b":[{"c":1}]},"f1":1}`,
+	`[{"a":"x\ny","i":0},{"a":"xny","i":1},{"a":"x\ty","i":2},{"a":"xty","i":3},{"a":"x\\ny","i":4},{"a":"x'y","i":5},{"a":"xAy","i":6},{"a":"xu0041y","i":7}]`,
 }
 
 // c19Behaviour describes what a parsed function does on the probe documents.
